@@ -467,14 +467,17 @@ class Pair(GraphFamily):
                             op = ["join", 1, 0, cb, ca, how] if flip else ["join", 0, 1, ca, cb, how]
                             yield [[left, right], [op], [0, None], skind]
         # random: larger tables, full alphabets, views, both query directions
-        n = 1500 if tier == "quick" else 40000
+        n = 5000 if tier == "quick" else 60000
         tags = list(PAIR_DTYPES)
-        for _ in range(n):
+        for it in range(n):
             tag = rng.choice(tags)
             ldt, rdt = rng.choice(PAIR_DTYPES[tag])
             if rng.random() < 0.5:
                 ldt, rdt = rdt, ldt
             nL, nR = rng.randint(0, 5), rng.randint(0, 5)
+            if it % 25 == 0:
+                # long tables with many duplicates: numpy's sort-based isin path
+                nL, nR = rng.randint(20, 45), rng.randint(20, 45)
             big = rng.random() < 0.2
             rowsL = [[rng.choice(alphabet(dt, big=big)) for dt in ldt] for _ in range(nL)]
             rowsR = [[rng.choice(alphabet(dt, big=big)) for dt in rdt] for _ in range(nR)]
@@ -582,7 +585,7 @@ class Graph(GraphFamily):
                     for d in range(4):
                         yield [dsets, ops, [d, None], "ineq" if e is not None else "table"]
         # ---- random
-        n = 2500 if tier == "quick" else 60000
+        n = 8000 if tier == "quick" else 90000
         for _ in range(n):
             yield self.random_case(rng)
 
@@ -617,7 +620,7 @@ class Graph(GraphFamily):
                 k = rng.choice(linked)
                 pos = rng.randint(k + 1, len(ops))
                 ops.insert(pos, ["unjoin", ops[k][1], ops[k][2]])
-        elif ops and rng.random() < 0.15:
+        elif ops and rng.random() < 0.3:
             # join the same pair again with other columns: the dict entry is overwritten in place
             k = rng.randrange(len(ops))
             a, b = ops[k][1], ops[k][2]
@@ -667,7 +670,7 @@ class Special(Graph):
             for ldt, rdt in ((["U3", "U3"], ["U3", "U3"]), (["U3", "U6"], ["U6", "U3"])):
                 for sel in ([True, False, False, False], [False, True, True, False], [True] * 4):
                     yield [[[ldt, [4], S, None], [rdt, [4], S[::-1], sel]], [["join", 0, 1, ca, cb, "key"]], [0, None], "table"]
-        n = 800 if tier == "quick" else 20000
+        n = 2500 if tier == "quick" else 30000
         for _ in range(n):
             yield self.random_case(rng, special=True)
 
